@@ -4,6 +4,7 @@ import Driver.C15
 import Driver.C12
 import Driver.C17
 import Driver.C14
+import Driver.Sys
 import Driver.C18
 /-
 replicon_driver: reads the harness stream on stdin, runs the Lean model in lock step,
@@ -35,6 +36,7 @@ structure DState where
   seen : Std.HashSet UInt64 := {}
   distinctNontrivial : Nat := 0
   samples : List (String × Nat) := []   -- per record head: how many samples printed
+  sys : Option Sys.State := none
 
 def bump (st : List (String × Nat)) (k : String) : List (String × Nat) :=
   match st with
@@ -63,8 +65,13 @@ def flushRecord (s : DState) : IO DState := do
   | none => return s
   | some inp =>
     let obs := s.curObs.toList
-    let out := dispatch inp obs
     let mut s := { s with curInput := none, curObs := #[], records := s.records + 1 }
+    let out ← match s.inCase, s.sys with
+      | true, some sst =>
+        let (sst', vs) := Sys.handle sst (toks inp) obs
+        s := { s with sys := some sst' }
+        pure ({ verdicts := vs } : Outcome)
+      | _, _ => pure (dispatch inp obs)
     for k in out.stats do
       s := { s with stats := bump s.stats k }
     if out.nontrivial && !s.inCase then
@@ -106,9 +113,26 @@ def step (s : DState) (line : String) : IO DState := do
     return if s.inCase then { s with caseLines := s.caseLines.push line } else s
   let s ← flushRecord s
   if line.startsWith "case " then
-    return { s with inCase := true, caseHdr := line, caseLines := #[line], caseFailed := false }
+    let hdr := toks line
+    let sys := if hdr.getD 2 "" = "sys" then some (Sys.init hdr) else none
+    return { s with inCase := true, caseHdr := line, caseLines := #[line], caseFailed := false, sys := sys }
   if line = "end" then
     let mut s := s
+    -- per-case statistics and distinct / non-trivial accounting
+    match s.sys with
+    | some sst =>
+      for k in sst.stats.eraseDups do
+        s := { s with stats := bump s.stats k }
+      let nontrivial := sst.stats.contains "sys.sframe_sending" && sst.stats.contains "sys.cframe_entities"
+      if nontrivial then
+        let h := hash (s.caseLines.toList.filter fun l => !l.startsWith "=")
+        if !s.seen.contains h then
+          s := { s with seen := s.seen.insert h, distinctNontrivial := s.distinctNontrivial + 1 }
+          let n := (s.samples.lookup "case").getD 0
+          if n < 2 then
+            IO.println s!"SAMPLE {String.intercalate " ; " ((s.caseLines.toList.filter fun l => !l.startsWith "=").take 40)}"
+            s := { s with samples := ("case", n + 1) :: s.samples.filter (·.1 ≠ "case") }
+    | none => pure ()
     if s.caseFailed then
       s := { s with failedCases := s.failedCases + 1 }
       if s.printedReplays < maxReplays then
@@ -119,7 +143,7 @@ def step (s : DState) (line : String) : IO DState := do
         IO.println "REPLAY-END"
         s := { s with printedReplays := s.printedReplays + 1 }
       else IO.println "REPLAY-SKIPPED"
-    return { s with inCase := false, caseLines := #[], caseFailed := false, cases := s.cases + 1 }
+    return { s with inCase := false, caseLines := #[], caseFailed := false, cases := s.cases + 1, sys := none }
   if line.isEmpty || line.startsWith "#" then return s
   let s := { s with curInput := some line }
   return if s.inCase then { s with caseLines := s.caseLines.push line } else s
